@@ -12,7 +12,7 @@ RULE = ('Hypothesis draws configuration (transports, allow_upgrades, limits) and
         'on upgrade sockets: every frame sequence on them (correct probe/upgrade, wrong type, '
         'wrong payload, binary, empty, oversize, nothing), closure or fault before the probe, '
         'between probe and UPGRADE and after, concurrent polls and application sends, second '
-        'upgrade attempts on upgraded sessions, WebSocket-first opens, upgrade requests naming '
+        'upgrade attempts on upgraded sessions, two upgrade sockets open on one session at once (one silent while the other shakes hands, then closing or sending frames), WebSocket-first opens, upgrade requests naming '
         'transport=polling, Upgrade headers that are not exactly websocket (token lists, other '
         'case, other protocols). Oracle: server.transport(sid) at every quiet point equals the model '
         '(websocket iff ws-first or the first two frames of an accepted upgrade socket were PING '
@@ -207,7 +207,7 @@ PROFILE = {
         'handler_delay': st.sampled_from([{}, {}, {}, {'message': 0.25}, {'disconnect': 0.25},
                                           {'message': 0.25, 'disconnect': 0.25}])}),
     'client_flavours': ['plain', 'plain', 'plain', 'plain', 'jsonp', 'gzip', 'jsonp+gzip'],
-    'weights': {'open': 3, 'poll': 4, 'post': 1, 'probe_step': 10, 'upg_connect': 1, 'ws_send': 2,
+    'weights': {'open': 3, 'poll': 4, 'post': 1, 'probe_step': 10, 'upg_connect': 1, 'upg_swap': 3, 'ws_send': 2,
                 'ws_close': 2, 'ws_fail': 1, 'pong': 1, 'app_send': 5, 'advance': 2},
     'max_sessions': 3,
     'packet_kinds': [('msg', 4), ('pong', 1), ('upgrade', 1)],
@@ -225,6 +225,7 @@ PROFILE = {
     'autopong': [True],
     'open_transports': ['polling', 'polling', 'polling', 'websocket'],
     'odd_upgrade_hdr_pct': 25,
+    'stale_socket_pct': 15,      # a second upgrade socket that stays silent next to the handshake
     'probe_spellings_pct': 15,
 }
 
